@@ -3,3 +3,6 @@ import BV.C15.LemmasVlq
 import BV.C15.LemmasAmt
 import BV.C15.LemmasDec
 import BV.C15.LemmasDec2
+import BV.C15.LemmasScript
+import BV.C15.LemmasRec
+import BV.C15.LemmasFix
